@@ -14,7 +14,7 @@ PROPS["C12"] = {
         {"name": "C12_kat", "status": "proved", "statement": "non-vacuity: a libsodium known answer, by vm_compute"},
     ],
     "gen_obligations": ["GenTie.blake2b_tables_tie", "GenTie.blake2b_params_tie", "GenTie.kdf_constants_tie"],
-    "builds": ["stable", "nightly"],
+    "builds": ["stable", "nightly", "simd"],
     "rule": "cases: every subkey length 0..=80 x ids {0,1,2^32,2^63,2^64-1,255,256,2^32-1,PRNG} x key/context sets (zero, PRNG, 0xff); "
             "each case is run on dryoc (catch_unwind), on the extracted Coq model (correspondence) and on libsodium (search); "
             "non-trivial = length in 16..=64 (reaches the hash), distinct by (op,args)",
@@ -111,7 +111,7 @@ PROPS["C07"] = {  # gen: Gen/Kernels.v (vkernel.py)
         {"name": "C07_kat_blake2b", "status": "proved", "statement": "non-vacuity: RFC 7693 'abc' through the implementation model"},
     ],
     "gen_obligations": ["GenTie.blake2b_tables_tie", "GenTie.blake2b_params_tie"],
-    "builds": ["stable"],
+    "builds": ["stable", "simd"],
     "rule": "every input length 0..=1100 for onetimeauth / auth / sha512 / shorthash / generichash on dryoc vs libsodium (search); the extracted model sees every length 0..=260 and a stride above (correspondence); "
             "digest x key length grid incl. rejected pairs; adversarial Poly1305 operands (r=1,2,max; unreduced accumulator p-8..p+3, +2^128, tails; s=0, 2^128-1); verify accept + every single-bit MAC flip; "
             "cores on PRNG/extreme inputs; increment on 0xff-runs. non-trivial = reaches the primitive (valid lengths), distinct by (op,args)",
@@ -131,7 +131,7 @@ PROPS["C08"] = {
         {"name": "C08_external_hasher", "status": "proved", "statement": "any hasher with update (update s a) b = update s (a++b) and update s [] = s: fold = one update (sha2-backed interfaces)"},
         {"name": "C08_example", "status": "proved", "statement": "non-vacuity example by vm_compute"},
     ],
-    "builds": ["stable"],
+    "builds": ["stable", "simd"],
     "rule": "every 2-way split of every length 0..=300 and every 3-way split of every length 0..=140 (thorough 600/260) on dryoc for onetimeauth, generichash (keyed/unkeyed), auth, sha512 (search, exhaustive over that family); "
             "object-API incremental interfaces; PRNG k-way partitions with empty pieces of 1-8 KiB messages; a 0.5% (thorough 2%) sample of the partitions through the extracted model (correspondence). non-trivial: all; distinct by (op,args)",
     "modelled": _SYM_MODELLED,
